@@ -661,12 +661,14 @@ def handle : Handler := fun op inp impl => do
   match impl with
   | .obj _ =>
     if (jopt impl "panic").isSome then
-      return { model := .null, holds := [("C15.no-panic", false)], tags := ["panic"] }
+      -- C16: whatever the script returns, the provider turns it into a result or an error, never a process crash
+      return { model := .null, holds := [("C15.no-panic", false), ("C16.provider_no_panic", false)], tags := ["panic"] }
   | _ => pure ()
-  match op with
-  | "seq" => handleSeq inp impl
-  | "script" => handleScript inp impl
-  | "hist" => handleHist inp impl
-  | _ => .error s!"custom: unknown op {op}"
+  let r ← (match op with
+    | "seq" => handleSeq inp impl
+    | "script" => handleScript inp impl
+    | "hist" => handleHist inp impl
+    | _ => .error s!"custom: unknown op {op}")
+  return { r with holds := r.holds ++ [("C16.provider_no_panic", true)] }
 
 end RV.Drv.Custom
